@@ -47,7 +47,8 @@ def execute(sc, keep=False):
                 results[st["id"]] = execu.Outcome("", "skipped", -999, "skipped")
                 continue
             argv = [x.replace("{ROOT}", root) for x in st["argv"]]
-            results[st["id"]] = execu.run_cmd(argv, cwd, st.get("env"), st.get("timeout", 10.0))
+            env = {k: v.replace("{ROOT}", root) for k, v in st["env"].items()} if st.get("env") else None
+            results[st["id"]] = execu.run_cmd(argv, cwd, env, st.get("timeout", 10.0))
         failures = []
         for a in sc["asserts"]:
             f = ASSERT_KINDS[a["kind"]](a, results, ctx)
